@@ -146,7 +146,7 @@ func runC14(c *Ctx) {
 	// ---- values stored into state
 	eachInstr(f, func(ins ssa.Instruction) {
 		st, ok := ins.(*ssa.Store)
-		if !ok || !isFieldAddr(st.Addr, T, "state") {
+		if !ok || !isFieldAddr(st.Addr, T, c.fld("pfb.state")) {
 			return
 		}
 		if k, isC := constInt(st.Val); isC {
@@ -167,7 +167,7 @@ func runC14(c *Ctx) {
 	// no store of a non-constant other than the validated header byte
 	eachInstr(f, func(ins ssa.Instruction) {
 		st, ok := ins.(*ssa.Store)
-		if !ok || !isFieldAddr(st.Addr, T, "state") {
+		if !ok || !isFieldAddr(st.Addr, T, c.fld("pfb.state")) {
 			return
 		}
 		if _, isC := constInt(st.Val); isC {
